@@ -1,11 +1,495 @@
 /-
-  Driver/OpsHist.lean — driver ops of the operation-history unit (C15) (stub).
+  Driver/OpsHist.lean — driver ops of the operation-history unit (C15).
+
+  model ops (prec f64 | f32), T1:
+    hist_cast G g                     → g                       (same-scalar cast)
+    hist_liftproj G g                 → lift∘project round trip (SO2, SE2)
+    hist_ode G id h g v               → one fixed step of stepper `id` through the adaptor model
+    hist_run G <program words>        → `Hist.step` folded over the program; destination register after every op
+  audit ops (prec f64a | f32a), exact oracle (rationals / 320-bit fixed point):
+    hist_step G code ins… outs…       → per-op ε: [matrix error, norm² error]
+    hist_audit G <program> <checkpts> → per checkpoint [err, defect, min q_w, scale, finite, k]
+    hist_odefinal G id n h x0 v xf    → [err vs x0·exp(n·h·v^), defect, min q_w, finite]
+    hist_odestage G t x0 v xs         → same with T = t
 -/
 import SmoothModel
+import SmoothModel.Hist
 import Driver.Ops
 
-namespace Drv
+open Scalar Lin Oracle
 
-def runHist (_op _grp _prec : String) (_args : Array String) : Option String := none
+namespace Drv
+namespace HistOps
+
+-- ---------------------------------------------------------------- word decoding
+def isA (prec : String) : Bool := prec == "f64a" || prec == "f32a"
+def is32 (prec : String) : Bool := prec == "f32" || prec == "f32a"
+
+def ratW (prec : String) (w : String) : Rat :=
+  if is32 prec then ratOfBits32 (parseHex w).toUInt32 else ratOfBits64 (parseHex w)
+def finW (prec : String) (w : String) : Bool :=
+  if is32 prec then isFinite32 (parseHex w).toUInt32 else isFinite64 (parseHex w)
+def natW (prec : String) (w : String) : Nat :=
+  let r := ratW prec w
+  if r.num < 0 then 0 else r.num.natAbs / r.den
+def fhex (x : Float) : String := toHexN x.toBits 16
+def replyF (xs : Array Float) : String := " ".intercalate (xs.toList.map fhex)
+
+-- ---------------------------------------------------------------- flattened group structure
+mutual
+  def flat : GDesc → List GDesc
+    | .bundle ps => flatL ps
+    | .so2 => [.so2] | .so3 => [.so3] | .se2 => [.se2] | .se3 => [.se3] | .c1 => [.c1] | .gal => [.gal]
+    | .tn n => [.tn n] | .sek3 k => [.sek3 k]
+  def flatL : List GDesc → List GDesc
+    | [] => []
+    | p :: ps => flat p ++ flatL ps
+end
+
+/-- (offset, length, quaternion with canonical sign) of the unit-constrained coefficients -/
+def unitBlock : GDesc → Option (Nat × Nat × Bool)
+  | .so2 => some (0, 2, false)
+  | .so3 => some (0, 4, true)
+  | .se2 => some (2, 2, false)
+  | .se3 => some (3, 4, true)
+  | .gal => some (7, 4, true)
+  | .sek3 k => some (3 * k, 4, true)
+  | _ => none
+
+structure Part where
+  d : GDesc
+  rep : Nat
+  dof : Nat
+  dim : Nat
+  repOff : Nat
+  dofOff : Nat
+  deriving Inhabited
+
+def partsOf (d : GDesc) : Array Part := Id.run do
+  let mut out : Array Part := #[]
+  let mut ro := 0
+  let mut to := 0
+  for p in flat d do
+    let G : LieModel Rat := GDesc.model p
+    out := out.push ⟨p, G.rep, G.dof, G.dim, ro, to⟩
+    ro := ro + G.rep
+    to := to + G.dof
+  return out
+
+def partMatrix (p : Part) (x : Array Rat) (off : Nat) : RMat :=
+  let G : LieModel Rat := GDesc.model p.d
+  RMat.ofMat (G.matrix (ofArray G.rep x (off + p.repOff)))
+
+def partHat (p : Part) (x : Array Rat) (off : Nat) (scale : Rat := 1) : RMat :=
+  let G : LieModel Rat := GDesc.model p.d
+  (RMat.ofMat (G.hat (ofArray G.dof x (off + p.dofOff)))).smul scale
+
+def bOf (A : RMat) : BMat := BMat.ofRMat A
+
+/-- exact matrices (one per primitive factor) of the element stored at `off` -/
+def elemB (ps : Array Part) (x : Array Rat) (off : Nat) : Array BMat :=
+  ps.map (fun p => bOf (partMatrix p x off))
+
+def expB (ps : Array Part) (x : Array Rat) (off : Nat) (scale : Rat := 1) : Array BMat :=
+  ps.map (fun p => BMat.exp (bOf (partHat p x off scale)))
+
+def mulB (A B : Array BMat) : Array BMat := (A.zip B).map (fun (a, b) => a.mul b)
+
+def invB (A : Array BMat) : Option (Array BMat) :=
+  A.foldl (fun acc a => match acc, a.inverse with
+    | some l, some ai => some (l.push ai)
+    | _, _ => none) (some #[])
+
+def maxAbsB (A : Array BMat) : Rat :=
+  A.foldl (fun s a => let m := BigFix.toRat (a.maxAbs); if s < m then m else s) 0
+
+/-- `max_parts ‖M(coeffs) − X‖max` (absolute) -/
+def distB (ps : Array Part) (x : Array Rat) (off : Nat) (X : Array BMat) : Rat := Id.run do
+  let mut worst : Rat := 0
+  for i in [0:ps.size] do
+    let M := partMatrix ps[i]! x off
+    let d := (M.sub (X[i]!).toRMat).maxAbs
+    if d > worst then worst := d
+  return worst
+
+def sqnAt (x : Array Rat) (off len : Nat) : Rat :=
+  (List.range len).foldl (fun s i => s + (x.getD (off + i) 0) ^ 2) 0
+
+/-- (max |‖q‖²−1| over constrained parts, min q_w over quaternion parts (1 if none)) -/
+def constraint (ps : Array Part) (x : Array Rat) (off : Nat) : Rat × Rat := Id.run do
+  let mut defect : Rat := 0
+  let mut minw : Rat := 1
+  for p in ps do
+    match unitBlock p.d with
+    | some (o, len, isq) =>
+      let n2 := sqnAt x (off + p.repOff + o) len
+      let d := (n2 - 1).abs
+      if d > defect then defect := d
+      if isq then
+        let w := x.getD (off + p.repOff + o + 3) 0
+        if w < minw then minw := w
+    | none => pure ()
+  return (defect, minw)
+
+/-- product over constrained parts is not meaningful; per part list of norms² -/
+def sqns (ps : Array Part) (x : Array Rat) (off : Nat) : Array Rat :=
+  ps.filterMap (fun p => match unitBlock p.d with
+    | some (o, len, _) => some (sqnAt x (off + p.repOff + o) len)
+    | none => none)
+
+def max1 (a : Rat) : Rat := if a < 1 then 1 else a
+def rmax (a b : Rat) : Rat := if a < b then b else a
+
+-- ---------------------------------------------------------------- per-step audit
+/-- `hist_step G code ins… outs…` → [matrix error relative to max(1, ‖operands‖, ‖exact‖), norm² error] -/
+def stepAudit (d : GDesc) (x : Array Rat) : Except String (Array Float) := do
+  let ps := partsOf d
+  let rep := ps.foldl (fun s p => s + p.rep) 0
+  let dof := ps.foldl (fun s p => s + p.dof) 0
+  let code := (x.getD 0 0).num.natAbs
+  let b := 1
+  let finish (exact : Array BMat) (outOff : Nat) (opScale : Rat) (expectN : Array Rat) : Except String (Array Float) := do
+    let dist := distB ps x outOff exact
+    let sc := max1 (rmax opScale (maxAbsB exact))
+    let got := sqns ps x outOff
+    let mut ne : Rat := 0
+    for i in [0:got.size] do
+      let e := expectN.getD i 1
+      let v := if e == 0 then (got[i]! - e).abs else ((got[i]! - e) / e).abs
+      if v > ne then ne := v
+    return #[ratToFloat (dist / sc), ratToFloat ne]
+  match code with
+  | 0 =>
+    if x.size != b + 3 * rep then throw "arity"
+    let A := elemB ps x b; let B := elemB ps x (b + rep)
+    let na := sqns ps x b; let nb := sqns ps x (b + rep)
+    finish (mulB A B) (b + 2 * rep) (rmax (maxAbsB A) (maxAbsB B)) ((na.zip nb).map (fun (p, q) => p * q))
+  | 1 =>
+    if x.size != b + 2 * rep then throw "arity"
+    let A := elemB ps x b
+    match invB A with
+    | none => throw "singular"
+    | some Ai =>
+      -- conj/‖q‖² (SO3 family) has norm² 1/‖q‖², conj (SO2 family) keeps ‖q‖²: accept the closer
+      let na := sqns ps x b
+      let got := sqns ps x (b + rep)
+      let ex := (na.zip got).map (fun (n, g) =>
+        if n == 0 then n else if (g - n).abs ≤ (g - 1 / n).abs then n else 1 / n)
+      finish Ai (b + rep) (maxAbsB A) ex
+  | 2 =>
+    if x.size != b + dof + rep then throw "arity"
+    finish (expB ps x b) (b + dof) 1 ((sqns ps x (b + dof)).map (fun _ => 1))
+  | 3 =>
+    if x.size != b + rep + dof + rep then throw "arity"
+    let A := elemB ps x b
+    finish (mulB A (expB ps x (b + rep))) (b + rep + dof) (maxAbsB A) (sqns ps x b)
+  | 6 | 7 =>
+    if x.size != b + 2 * rep then throw "arity"
+    let A := elemB ps x b
+    finish A (b + rep) (maxAbsB A) (sqns ps x b)
+  | 9 =>
+    -- ins: id h g v
+    if x.size != b + 2 + rep + dof + rep then throw "arity"
+    let h := x.getD (b + 1) 0
+    let A := elemB ps x (b + 2)
+    finish (mulB A (expB ps x (b + 2 + rep) h)) (b + 2 + rep + dof) (maxAbsB A) (sqns ps x (b + 2))
+  | _ => throw "unknown-step-code"
+
+-- ---------------------------------------------------------------- odeint law
+/-- `x0 (rep) v (dof) xf (rep)` at offsets; exact `x0·exp(T·v^)` -/
+def odeAudit (d : GDesc) (x : Array Rat) (T : Rat) (off : Nat) (fin : Bool) : Array Float :=
+  let ps := partsOf d
+  let rep := ps.foldl (fun s p => s + p.rep) 0
+  let dof := ps.foldl (fun s p => s + p.dof) 0
+  let A := elemB ps x off
+  let ex := mulB A (expB ps x (off + rep) T)
+  let dist := distB ps x (off + rep + dof) ex
+  let sc := max1 (rmax (maxAbsB A) (maxAbsB ex))
+  let (defect, minw) := constraint ps x (off + rep + dof)
+  #[ratToFloat (dist / sc), ratToFloat defect, ratToFloat minw, if fin then 1.0 else 0.0]
+
+-- ---------------------------------------------------------------- whole-history audit
+structure OpW where
+  code : Nat
+  d : Nat
+  a : Nat
+  b : Nat
+  extra : Nat      -- offset of the extra words in the word array
+  deriving Inhabited
+
+/-- parse `NE NT NOPS init… ops…`; returns (ne, nt, elemOff, tanOff, ops, offset after ops) -/
+def parseProgram (x : Array Rat) (rep dof : Nat) : Except String (Nat × Nat × Nat × Nat × Array OpW × Nat) := do
+  let nat (i : Nat) : Nat := let r := x.getD i 0; if r.num < 0 then 0 else r.num.natAbs / r.den
+  if x.size < 3 then throw "short"
+  let ne := nat 0; let nt := nat 1; let nops := nat 2
+  let eo := 3
+  let to := eo + ne * rep
+  let mut off := to + nt * dof
+  let mut ops : Array OpW := #[]
+  for _ in [0:nops] do
+    if off + 4 > x.size then throw "short-ops"
+    let code := nat off
+    let o : OpW := ⟨code, nat (off + 1), nat (off + 2), nat (off + 3), off + 4⟩
+    off := off + 4 + (if code == 8 then dof else if code == 9 then 2 else 0)
+    ops := ops.push o
+  if off > x.size then throw "short-extra"
+  return (ne, nt, eo, to, ops, off)
+
+structure HState where
+  X : Array (Array BMat)          -- exact registers
+  S : Array Rat                   -- running magnitude scale per register
+  T : Array (Array Rat)           -- tangent registers
+  cache : Array (Option (Array BMat))
+  ocache : Option (Nat × Rat × Array BMat)   -- last (tangent register, h, exp(h·v^)) of an ode op
+  k : Nat
+  ck : Nat                        -- offset of the next checkpoint
+  out : Array Float
+  err : Option String
+
+def histAudit (d : GDesc) (x : Array Rat) (fin : Array Bool) : Except String (Array Float) := do
+  let ps := partsOf d
+  let rep := ps.foldl (fun s p => s + p.rep) 0
+  let dof := ps.foldl (fun s p => s + p.dof) 0
+  let (ne, nt, eo, to, ops, ckOff) ← parseProgram x rep dof
+  let nat (i : Nat) : Nat := let r := x.getD i 0; if r.num < 0 then 0 else r.num.natAbs / r.den
+  let X0 : Array (Array BMat) := Array.ofFn (n := ne) (fun i => elemB ps x (eo + i.val * rep))
+  let st0 : HState := {
+    X := X0, S := X0.map (fun A => max1 (maxAbsB A)),
+    T := Array.ofFn (n := nt) (fun i => x.extract (to + i.val * dof) (to + (i.val + 1) * dof)),
+    cache := Array.replicate nt none, ocache := none, k := 0, ck := ckOff, out := #[], err := none }
+  -- one primitive op
+  let prim (st : HState) (o : OpW) : HState := Id.run do
+    if st.err.isSome then return st
+    let mut st := st
+    let getE (st : HState) (t : Nat) : HState × Array BMat :=
+      match st.cache.getD t none with
+      | some e => (st, e)
+      | none =>
+        let e := expB ps (st.T.getD t #[]) 0
+        ({ st with cache := st.cache.setIfInBounds t (some e) }, e)
+    let setR (st : HState) (dst : Nat) (V : Array BMat) (sc : Rat) : HState :=
+      { st with X := st.X.setIfInBounds dst V, S := st.S.setIfInBounds dst (rmax sc (max1 (maxAbsB V))) }
+    let Xa := st.X.getD o.a #[]; let Sa := st.S.getD o.a 1
+    match o.code with
+    | 0 => st := setR st o.d (mulB Xa (st.X.getD o.b #[])) (rmax Sa (st.S.getD o.b 1))
+    | 1 =>
+      match invB Xa with
+      | some Ai => st := setR st o.d Ai Sa
+      | none => st := { st with err := some "singular" }
+    | 2 =>
+      let (st', e) := getE st o.a
+      st := setR st' o.d e 1
+    | 3 =>
+      let (st', e) := getE st o.b
+      st := setR st' o.d (mulB Xa e) Sa
+    | 4 => st := setR st o.d (mulB (st.X.getD o.d #[]) Xa) (rmax (st.S.getD o.d 1) Sa)
+    | 5 =>
+      let (st', e) := getE st o.a
+      st := setR st' o.d (mulB (st.X.getD o.d #[]) e) (st.S.getD o.d 1)
+    | 6 | 7 => st := setR st o.d Xa Sa
+    | 8 =>
+      st := { st with T := st.T.setIfInBounds o.d (x.extract o.extra (o.extra + dof)),
+                      cache := st.cache.setIfInBounds o.d none, ocache := none }
+    | 9 =>
+      let h := x.getD (o.extra + 1) 0
+      let e := match st.ocache with
+        | some (t, h', e') => if t == o.b && h' == h then e' else expB ps (st.T.getD o.b #[]) 0 h
+        | none => expB ps (st.T.getD o.b #[]) 0 h
+      st := { st with ocache := some (o.b, h, e) }
+      st := setR st o.d (mulB Xa e) Sa
+    | _ => st := { st with err := some "bad-op" }
+    st := { st with k := st.k + 1 }
+    -- checkpoints recorded for this k
+    let mut go := true
+    while go do
+      if st.ck + 2 + rep ≤ x.size && nat st.ck == st.k then
+        let r := nat (st.ck + 1)
+        let off := st.ck + 2
+        let isFin := (List.range rep).all (fun i => fin.getD (off + i) true)
+        let dist := distB ps x off (st.X.getD r #[])
+        let sc := st.S.getD r 1
+        let (defect, minw) := constraint ps x off
+        st := { st with ck := st.ck + 2 + rep,
+                        out := st.out ++ #[ratToFloat (dist / sc), ratToFloat defect, ratToFloat minw,
+                                            ratToFloat sc, (if isFin then 1.0 else 0.0), st.k.toFloat] }
+      else go := false
+    return st
+  let mut st := st0
+  let mut i := 0
+  while i < ops.size do
+    let o := ops[i]!
+    if o.code == 10 then
+      let len := o.d
+      let cnt := o.a
+      for _ in [0:cnt] do
+        for j in [1:len + 1] do
+          if i + j < ops.size then st := prim st ops[i + j]!
+      i := i + len + 1
+    else
+      st := prim st o
+      i := i + 1
+  match st.err with
+  | some e => throw e
+  | none => return st.out
+
+-- ---------------------------------------------------------------- model ops
+section
+variable {α : Type} [Scalar α]
+
+def lpOf (grp : String) (G : LieModel α) : Option (Vec α G.rep → Vec α G.rep) :=
+  if h : G.rep = 2 ∧ grp == "SO2" then some (fun g => h.1 ▸ Hist.liftprojSO2 (h.1 ▸ g))
+  else if h : G.rep = 4 ∧ grp == "SE2" then some (fun g => h.1 ▸ Hist.liftprojSE2 (h.1 ▸ g))
+  else none
+
+instance {dof : Nat} : Inhabited (Hist.Op α dof) := ⟨.castSame 0 0⟩
+
+def natOfRat (r : Rat) : Nat := if r.num < 0 then 0 else r.num.natAbs / r.den
+
+/-- decode the op list of a program into `Hist.Op`s (loops unrolled) -/
+def decodeOps (G : LieModel α) (x : Array α) (ints : Array Nat) (off nops : Nat) : Array (Hist.Op α G.dof) × Nat := Id.run do
+  let mut raw : Array (Hist.Op α G.dof × Nat) := #[]   -- op, loop marker (0 = plain; else (len,cnt) encoded separately)
+  let mut loops : Array (Nat × Nat × Nat) := #[]      -- (index in raw, len, cnt)
+  let mut off := off
+  for _ in [0:nops] do
+    let code := ints.getD off 0
+    let d := ints.getD (off + 1) 0; let a := ints.getD (off + 2) 0; let b := ints.getD (off + 3) 0
+    off := off + 4
+    match code with
+    | 0 => raw := raw.push (.compose d a b, 0)
+    | 1 => raw := raw.push (.inverse d a, 0)
+    | 2 => raw := raw.push (.exp d a, 0)
+    | 3 => raw := raw.push (.rplus d a b, 0)
+    | 4 => raw := raw.push (.mulAssign d a, 0)
+    | 5 => raw := raw.push (.plusAssign d a, 0)
+    | 6 => raw := raw.push (.castSame d a, 0)
+    | 7 => raw := raw.push (.liftproj d a, 0)
+    | 8 =>
+      raw := raw.push (.setTan d (ofArray G.dof x off), 0)
+      off := off + G.dof
+    | 9 =>
+      raw := raw.push (.ode d a b (Hist.stepperOf (ints.getD off 0)) (x.getD (off + 1) (nat 0)), 0)
+      off := off + 2
+    | _ =>
+      loops := loops.push (raw.size, d, a)
+  -- unroll
+  let mut out : Array (Hist.Op α G.dof) := #[]
+  let mut i := 0
+  let mut li := 0
+  while i < raw.size do
+    match loops[li]? with
+    | some (idx, len, cnt) =>
+      if idx == i then
+        for _ in [0:cnt] do
+          for j in [0:len] do
+            if h : i + j < raw.size then out := out.push (raw[i + j]).1
+        i := i + len
+        li := li + 1
+      else
+        out := out.push (raw[i]!).1
+        i := i + 1
+    | none =>
+      out := out.push (raw[i]!).1
+      i := i + 1
+  return (out, off)
+
+def destOf {dof : Nat} : Hist.Op α dof → Option Nat
+  | .compose d _ _ => some d | .inverse d _ => some d | .exp d _ => some d | .rplus d _ _ => some d
+  | .mulAssign d _ => some d | .plusAssign d _ => some d | .castSame d _ => some d | .liftproj d _ => some d
+  | .setTan _ _ => none | .ode d _ _ _ _ => some d
+
+/-- `hist_run`: fold `Hist.step` over the program, report the destination register after every op.
+    Teacher forcing: when the request carries the implementation's checkpoint `k r coeffs` for the
+    op just executed, the model's destination register is overwritten with it after reporting, so
+    that every reported value is ONE model op applied to operands fetched by the model's own
+    register semantics from the implementation's register contents. -/
+def histRun (grp : String) (x : Array α) (ints : Array Nat) : Except String (Array α) := do
+  match groupOf (α := α) grp with
+  | none => throw "unknown-group"
+  | some G =>
+    let ne := ints.getD 0 0; let nt := ints.getD 1 0; let nops := ints.getD 2 0
+    let eo := 3
+    let to := eo + ne * G.rep
+    let oo := to + nt * G.dof
+    let (ops, ckOff) := decodeOps G x ints oo nops
+    if ops.size > 2000 then throw "too-long"
+    let lp : Vec α G.rep → Vec α G.rep := (lpOf grp G).getD id
+    let Es : Array (Vec α G.rep) := Array.ofFn (n := ne) (fun i => memoV (ofArray G.rep x (eo + i.val * G.rep)))
+    let Ts : Array (Vec α G.dof) := Array.ofFn (n := nt) (fun i => memoV (ofArray G.dof x (to + i.val * G.dof)))
+    let mut s : Hist.State α G := ⟨fun i => Es.getD i G.identity, fun i => Ts.getD i (vzero _)⟩
+    let mut out : Array α := #[]
+    let mut k := 0
+    let mut ck := ckOff
+    for o in ops do
+      s := Hist.step G lp s o
+      k := k + 1
+      match destOf o with
+      | some d =>
+        out := out ++ toArray (s.E d)
+        if ck + 2 + G.rep ≤ x.size && ints.getD ck 0 == k && ints.getD (ck + 1) 0 == d then
+          let forced : Vec α G.rep := memoV (ofArray G.rep x (ck + 2))
+          s := { s with E := Hist.upd s.E d forced }
+          ck := ck + 2 + G.rep
+      | none => pure ()
+    return out
+
+def modelOp (op grp : String) (x : Array α) (ints : Array Nat) : Option (Except String (Array α)) :=
+  match op with
+  | "hist_cast" => some (.ok x)
+  | "hist_liftproj" =>
+    some (match groupOf (α := α) grp with
+      | none => .error "unknown-group"
+      | some G =>
+        match lpOf grp G with
+        | none => .error "no-lift"
+        | some lp => if x.size != G.rep then .error "arity" else .ok (toArray (lp (ofArray G.rep x))))
+  | "hist_ode" =>
+    some (match groupOf (α := α) grp with
+      | none => .error "unknown-group"
+      | some G =>
+        if x.size != 2 + G.rep + G.dof then .error "arity" else
+        let v : Vec α G.dof := memoV (ofArray G.dof x (2 + G.rep))
+        let g : Vec α G.rep := memoV (ofArray G.rep x 2)
+        .ok (toArray (Hist.rkStep (Hist.alg G) (fun _ _ => v) (Hist.stepperOf (ints.getD 0 0)) (nat 0) (x.getD 1 (nat 0)) g)))
+  | "hist_run" => some (histRun grp x ints)
+  | _ => none
+end
+
+end HistOps
+
+open HistOps in
+def runHist (op grp prec : String) (args : Array String) : Option String :=
+  if !(op.startsWith "hist_") then none else
+  if isA prec then
+    match GDesc.parse grp with
+    | none => some "ERR unknown-group"
+    | some d =>
+      let x := args.map (ratW prec)
+      let fin := args.map (finW prec)
+      let res : Except String (Array Float) :=
+        match op with
+        | "hist_step" => stepAudit d x
+        | "hist_audit" => histAudit d x fin
+        | "hist_odefinal" =>
+          -- id n h x0 v xf
+          let n := x.getD 1 0; let h := x.getD 2 0
+          .ok (odeAudit d x (n * h) 3 (fin.all id))
+        | "hist_odestage" => .ok (odeAudit d x (x.getD 0 0) 1 (fin.all id))
+        | _ => .error "unknown-hist-audit-op"
+      match res with
+      | .ok out => some (replyF out)
+      | .error e => some ("ERR " ++ e)
+  else
+    let ints := args.map (natW prec)
+    if prec == "f64" then
+      match modelOp (α := Float) op grp (args.map Bits.ofHex) ints with
+      | some (.ok out) => some (" ".intercalate (out.toList.map Bits.toHex))
+      | some (.error e) => some ("ERR " ++ e)
+      | none => some "ERR unknown-hist-op"
+    else if prec == "f32" then
+      match modelOp (α := Float32) op grp (args.map Bits.ofHex) ints with
+      | some (.ok out) => some (" ".intercalate (out.toList.map Bits.toHex))
+      | some (.error e) => some ("ERR " ++ e)
+      | none => some "ERR unknown-hist-op"
+    else some "ERR bad-prec"
 
 end Drv
